@@ -257,7 +257,7 @@ def clause_normalize(R, S):
             f"recursive calls: {tg}", key="norm|branch")
 
 
-def clause_from_b0(R, S0):
+def clause_from_b0(R, S0, rule="C10-from_b0"):
     for N in (512, 1024):
         S = session()
         ctx = S.ctx
@@ -300,7 +300,7 @@ def clause_from_b0(R, S0):
         site = f"SecretKey::<{N}>::from_b0"
         sigma = SPEC[N]["sigma"]
         if len(outs) < 1:
-            R.violation("C10-from_b0", site, "no return found", key=f"fb|{N}|run")
+            R.violation(rule, site, "no return found", key=f"fb|{N}|run")
             continue
         ffts = [c for c in calls if c[0] == "fft"]
         okf = len(ffts) == 4
@@ -312,17 +312,17 @@ def clause_from_b0(R, S0):
                         okf = okf and isinstance(re_, tuple) and re_[0] == "int" and c[3].taint.get(re_[1]) == frozenset({f"b{i}[{e}]"}) and im_ == 0.0
                 except NotSymbolic:
                     okf = False
-        R.check(okf, "C10-from_b0", site + " -> fft", "the four basis polynomials, embedded as (x, 0), are transformed in order", f"fft calls: {len(ffts)}", key=f"fb|{N}|fft")
+        R.check(okf, rule, site + " -> fft", "the four basis polynomials, embedded as (x, 0), are transformed in order", f"fft calls: {len(ffts)}", key=f"fb|{N}|fft")
         gr = [c for c in calls if c[0] == "gram"]
         okg = len(gr) == 1 and okf and type(gr[0][2]) is Sq and gr[0][2].head and all(same_poly(gr[0][2].head[i], f"fft{ffts[i][1]}", 2) for i in range(4))
-        R.check(okg, "C10-from_b0", site + " -> gram", "gram receives the four transformed polynomials in basis order", key=f"fb|{N}|gram")
+        R.check(okg, rule, site + " -> gram", "gram receives the four transformed polynomials in basis order", key=f"fb|{N}|gram")
         fl = [c for c in calls if c[0] == "ffldl"]
         okl = len(fl) == 1 and len(gr) == 1 and type(fl[0][2]) is Sq and fl[0][2].head and all(same_poly(fl[0][2].head[i], f"gram{gr[0][1]}_{i}", 2) for i in range(4))
-        R.check(okl, "C10-from_b0", site + " -> ffldl", "ffldl receives the Gram matrix", key=f"fb|{N}|ffldl")
+        R.check(okl, rule, site + " -> ffldl", "ffldl receives the Gram matrix", key=f"fb|{N}|ffldl")
         nm = [c for c in calls if c[0] == "normalize_tree"]
         okn = len(nm) == 1 and len(fl) == 1 and type(nm[0][2][0]) is Md and nm[0][2][0].kind == "ldltree" and nm[0][2][0].d["from"] == fl[0][1]
         sg = nm[0][2][1] if nm else None
-        R.check(okn and type(sg) is Fl and sg.lo == sg.hi == sigma, "C10-from_b0", site + " -> normalize_tree", f"the tree returned by ffldl is normalised with sigma = {sigma}",
+        R.check(okn and type(sg) is Fl and sg.lo == sg.hi == sigma, rule, site + " -> normalize_tree", f"the tree returned by ffldl is normalised with sigma = {sigma}",
                 f"normalize_tree calls: {[(str(c[2][0]), str(c[2][1])) for c in nm]}, expected sigma {sigma}", key=f"fb|{N}|norm")
         okr = True
         for r, s2 in outs:
@@ -330,7 +330,7 @@ def clause_from_b0(R, S0):
             if okr:
                 bb = r.f[0]
                 okr = type(bb) is Sq and bb.head and all(type(bb.head[i]) is Ag and s2.taint.get(bb.head[i].f[0].head[0].vid) == frozenset({f"b{i}[0]"}) for i in range(4))
-        R.check(okr, "C10-from_b0", site + " result", "every returned key holds the unchanged basis and the normalised tree", f"returned: {[str(r)[:200] for r, _ in outs]}", key=f"fb|{N}|ret")
+        R.check(okr, rule, site + " result", "every returned key holds the unchanged basis and the normalised tree", f"returned: {[str(r)[:200] for r, _ in outs]}", key=f"fb|{N}|ret")
         R.analysed.setdefault("unsupported", []).extend(S.unsupported[:5])
 
 
